@@ -60,3 +60,14 @@ C("C14", "exploration",
   "parametrisations, monotone, CC+NC = total (CTW), L = 1/(N_A sigma). Event trees: BFS over all add_children histories up to 6/7 particles "
   "with a parent-vector reference model checked after every transition.",
   "verifies the transformation from uniform variates, not the generator; constants transcribed by hand from the papers", "DESIGN.md §4 C14")
+C("C09", "model_checking",
+  "explicit-state BFS with deepcopy snapshots over real Antenna/DipoleAntenna/AntennaSystem objects, reference model compared after every transition",
+  "From the empty state of 8 object kinds (threshold Antenna, DipoleAntenna, AntennaSystem with x2 front end, AntennaSystem with a "
+  "1-sample-delay front end and lead-in; each noiseless and noisy under an owned random stream) every sequence of 21 actions (8 receive "
+  "variants over overlapping/disjoint/nested windows, three kinds of reads, full_waveform / is_hit_during on windows whose ends sit exactly on "
+  "signal edges, make_noise, clear, clear(reset_noise)) is explored to depth 5/4 (quick) and 6/5 (thorough), sharded by first action. After "
+  "every transition: signal/waveform counts, grids, triggered list == filter of cached waveforms in order, is_hit, emptiness after clear, "
+  "noiseless waveform == sum of received signals interpolated (through the front end), noise identical at equal absolute times until reset "
+  "and different after, full_waveform - noise == noiseless sum.",
+  "canonical key = model state + sizes of the implementation's caches (so states with corrupted hidden caches are never merged away); "
+  "cached waveforms may reflect the signals present at first read or all signals", "DESIGN.md §4 C09")
